@@ -72,3 +72,11 @@ mut("pt_setter_reads_stored_slot", "src/vector/backends/object.py", "    @pt.set
 mut("replace_data_theta_uses_eta", "src/vector/backends/object.py", "obj.longitudinal = LongitudinalObjectTheta(result.theta)", "obj.longitudinal = LongitudinalObjectTheta(result.eta)", ["C15"], "in-place operators on theta-stored objects store eta under theta")
 mut("isub_adds", "src/vector/backends/object.py", "return _replace_data(self, numpy.subtract(self, other))", "return _replace_data(self, numpy.add(self, other))", ["C15"], "-= adds")
 mut("iadd_returns_new_object", "src/vector/backends/object.py", "        return _replace_data(self, numpy.add(self, other))", "        return numpy.add(self, other)", ["C15"], "+= rebinds the name to a new object (identity and coordinate system lost)")
+
+# --- backends (C03) and operand immutability (C16) -------------------------------------------------------------
+mut("awkward_wrap_rhophi_swapped", "src/vector/backends/awkward.py", '            elif returns[0] is AzimuthalRhoPhi:\n                names.extend(["rho", "phi"])\n                arrays.extend([result[0], result[1]])\n\n            if returns[1] is LongitudinalZ:\n                names.append("z")\n                arrays.append(result[2])\n            elif returns[1] is LongitudinalTheta:\n                names.append("theta")\n                arrays.append(result[2])\n            elif returns[1] is LongitudinalEta:\n                names.append("eta")\n                arrays.append(result[2])\n\n            if returns[2] is TemporalT:',
+    '            elif returns[0] is AzimuthalRhoPhi:\n                names.extend(["rho", "phi"])\n                arrays.extend([result[1], result[0]])\n\n            if returns[1] is LongitudinalZ:\n                names.append("z")\n                arrays.append(result[2])\n            elif returns[1] is LongitudinalTheta:\n                names.append("theta")\n                arrays.append(result[2])\n            elif returns[1] is LongitudinalEta:\n                names.append("eta")\n                arrays.append(result[2])\n\n            if returns[2] is TemporalT:', ["C03"], "Awkward 4D results in rho-phi systems have rho and phi swapped")
+mut("numpy_wrap_reuses_operand_memory", "src/vector/backends/numpy.py", "            out = numpy.empty(_shape_of(result), dtype=dtype)\n            for i, name in enumerate(_coordinate_class_to_names[returns[0]]):\n                out[name] = result[i]\n            return out.view(cls.ProjectionClass2D)",
+    "            out = (\n                self.view(numpy.ndarray)\n                if self.dtype == numpy.dtype(dtype) and self.shape == _shape_of(result)\n                else numpy.empty(_shape_of(result), dtype=dtype)\n            )\n            for i, name in enumerate(_coordinate_class_to_names[returns[0]]):\n                out[name] = result[i]\n            return out.view(cls.ProjectionClass2D)", ["C16"], "2D NumPy results are written into the operand's own memory when the dtypes match")
+mut("object_scale_mutates_self", "src/vector/_compute/planar/scale.py", "    with numpy.errstate(all=\"ignore\"):\n        return v._wrap_result(", "    with numpy.errstate(all=\"ignore\"):\n        if hasattr(v, \"__slots__\") and factor == -1 and _aztype(v) is AzimuthalXY:\n            v.azimuthal = type(v.azimuthal)(-v.azimuthal[0], -v.azimuthal[1])\n            return v\n        return v._wrap_result(", ["C16", "C03"], "a 'fast path' negates a 2D object vector in place and returns it")
+mut("numpy_toarrays_float32", "src/vector/backends/numpy.py", "x if isinstance(x, numpy.ndarray) else numpy.array([x], numpy.float64)", "x if isinstance(x, numpy.ndarray) else numpy.array([x], numpy.float32)", ["C03"], "scalars broadcast against NumPy arrays are rounded to float32")
